@@ -150,7 +150,7 @@ def counts_for(tag, prop, item=None):
 EXHAUSTIVE = {
     'C14': ['derived'],     # both classes, both entry points, 0..=0x10FFFF + boundary values: decision list over the UCD oracle incl. has_compat == (NFKC(cp) != cp)
     'C01': ['no_panic_cp'],  # classification of every scalar / surrogate / boundary value returns; only panics count
-    'C08': ['lower_valid', 'derived'],
+    'C08': ['lower_valid', 'derived_scalar'],   # classification of every character (not of non-scalar u32 values: that is C14)
     'C09': ['bidi_probe'],
     'C10': ['lower_cp'],    # case_mapping_rule of every scalar value (alone / after an unmapped multi-byte char / after a mapped char) == char::to_lowercase
     'C11': ['width_cp'],    # width_mapping_rule of every scalar value (same three positions) == decomposition mapping of the UCD oracle
